@@ -65,53 +65,60 @@ GhostInit(N) == [elected |-> {}, grants |-> {}, committed |-> << >>,
 IsGrantEv(ev) == /\ "kind" \in DOMAIN ev /\ ev.kind = "voteReq"
                  /\ "result" \in DOMAIN ev /\ ev.result = "success"
 
-SelfVotes(ns) == {<<n, ns[n].term, n>> : n \in {m \in DOMAIN ns : ns[m].up /\ ns[m].state = "C" /\ ns[m].vote = m}}
+SelfVotes(ns, T) == {<<n, ns[n].term, n>> : n \in {m \in T : ns[m].up /\ ns[m].state = "C" /\ ns[m].vote = m}}
 
 \* the node (if any) whose commit index now exceeds the ledger
-Committers(gh, ns) == {n \in DOMAIN ns : ns[n].up /\ ns[n].commit > Len(gh.committed)}
+Committers(gh, ns, T) == {n \in T : ns[n].up /\ ns[n].commit > Len(gh.committed)}
 
-DurMajority(ns, cfg, i, e) ==
-    LET vs == Voters(cfg.nodes)
-        holders == {v \in vs : v \in DOMAIN ns /\ DurableHas(ns[v], i, e)}
+DurMajority(ns, vs, i, e) ==
+    LET holders == {v \in vs : v \in DOMAIN ns /\ DurableHas(ns[v], i, e)}
     IN 2 * Cardinality(holders) > Cardinality(vs)
 
-LedgerItem(ns, n, i) ==
+\* C06 is judged at the commit DECISION: the leader's "commit" act carries the voters of the configuration in
+\* force at that instant (a later configuration appended in the same step does not count)
+CommitActs(ev, n) == {a \in (IF "acts" \in DOMAIN ev THEN ev.acts ELSE {}) : a.kind = "commit" /\ a.n = n}
+VotersAtCommit(ns, ev, n, i) ==
+    LET cover == {a \in CommitActs(ev, n) : a.index >= i}
+    IN IF cover = {} THEN Voters(ns[n].cfgL.nodes)
+       ELSE (CHOOSE a \in cover : \A b \in cover : a.index <= b.index).voters
+
+LedgerItem(ns, ev, n, i) ==
     IF HasIdx(ns[n], i)
     THEN [e |-> EntryAt(ns[n], i), ct |-> ns[n].term, known |-> TRUE,
-          dur |-> DurMajority(ns, ns[n].cfgL, i, EntryAt(ns[n], i)), by |-> n]
+          dur |-> DurMajority(ns, VotersAtCommit(ns, ev, n, i), i, EntryAt(ns[n], i)), by |-> n]
     ELSE [e |-> [t |-> 0, y |-> "?", v |-> 0, c |-> << >>], ct |-> ns[n].term, known |-> FALSE, dur |-> TRUE, by |-> n]
 
-ExtendCommitted(gh, ns) ==
-    IF Committers(gh, ns) = {} THEN gh.committed
-    ELSE LET n == CHOOSE m \in Committers(gh, ns) : \A k \in Committers(gh, ns) : ns[k].commit <= ns[m].commit
+ExtendCommitted(gh, ns, ev, T) ==
+    IF Committers(gh, ns, T) = {} THEN gh.committed
+    ELSE LET n == CHOOSE m \in Committers(gh, ns, T) : \A k \in Committers(gh, ns, T) : ns[k].commit <= ns[m].commit
              from == Len(gh.committed) + 1
-         IN gh.committed \o [k \in 1..(ns[n].commit - Len(gh.committed)) |-> LedgerItem(ns, n, from + k - 1)]
+         IN gh.committed \o [k \in 1..(ns[n].commit - Len(gh.committed)) |-> LedgerItem(ns, ev, n, from + k - 1)]
 
 \* action-level checks, evaluated on (before, after, ev)
 SameInc(b, a) == b.up /\ a.up /\ b.inc = a.inc
 
-CommittedStableStep(gh, before, after) ==
-    \A n \in DOMAIN before : SameInc(before[n], after[n]) =>
+CommittedStableStep(gh, before, after, T) ==
+    \A n \in T : SameInc(before[n], after[n]) =>
         \A i \in 1..Len(gh.committed) :
             (gh.committed[i].known /\ HasIdx(before[n], i) /\ EntryAt(before[n], i) = gh.committed[i].e)
               => \/ (HasIdx(after[n], i) /\ EntryAt(after[n], i) = gh.committed[i].e)
                  \/ (i <= after[n].logPrev /\ i <= after[n].snapIdx)
 
-LeaderAppendOnlyStep(before, after) ==
-    \A n \in DOMAIN before :
+LeaderAppendOnlyStep(before, after, T) ==
+    \A n \in T :
         (SameInc(before[n], after[n]) /\ before[n].state = "L" /\ after[n].state = "L" /\ before[n].term = after[n].term)
           => \A i \in (after[n].logPrev + 1)..Last(before[n]) :
                 HasIdx(before[n], i) => (HasIdx(after[n], i) /\ EntryAt(after[n], i) = EntryAt(before[n], i))
 
-MonotoneStep(before, after) ==
-    \A n \in DOMAIN before : SameInc(before[n], after[n]) =>
+MonotoneStep(before, after, T) ==
+    \A n \in T : SameInc(before[n], after[n]) =>
         /\ after[n].term >= before[n].term
         /\ after[n].commit >= before[n].commit
         /\ after[n].fsmIdx >= before[n].fsmIdx
         /\ after[n].snapIdx >= before[n].snapIdx
 
-TermNeverBackStep(gh, after) ==
-    \A n \in DOMAIN after : after[n].up => after[n].term >= gh.maxTerm[n]
+TermNeverBackStep(gh, after, T) ==
+    \A n \in T : after[n].up => after[n].term >= gh.maxTerm[n]
 
 GrantDurableStep(after, ev) ==
     IsGrantEv(ev) => (after[ev.n].dterm = ev.term /\ after[ev.n].dvote = ev.from)
@@ -123,22 +130,48 @@ LeaderStickinessStep(before, after, ev) ==
        /\ before[ev.n].up /\ "preLeader" \in DOMAIN ev /\ ev.preLeader # None /\ ev.preLeader # ev.from)
       => (ev.result # "success" /\ after[ev.n].term = before[ev.n].term /\ after[ev.n].vote = before[ev.n].vote)
 
-StepViolations(gh, before, after, ev) ==
-       (IF CommittedStableStep(gh, before, after) THEN {} ELSE {"C02_CommittedStable"})
-  \cup (IF LeaderAppendOnlyStep(before, after) THEN {} ELSE {"C04_LeaderAppendOnly"})
-  \cup (IF MonotoneStep(before, after) THEN {} ELSE {"C19_Monotone"})
-  \cup (IF TermNeverBackStep(gh, after) THEN {} ELSE {"C05_TermMonotone"})
+\* ---- membership (C08, C11): `acts` = what the leader did inside this step, observed at the instant it did it
+Acts(ev) == IF "acts" \in DOMAIN ev THEN ev.acts ELSE {}
+\* a leader introduces a configuration only when the previous one is committed and it has committed an entry of its own term
+ConfigOnlyWhenSafeStep(ev) ==
+    \A a \in Acts(ev) : a.kind = "cfgChanged" => (a.prev <= a.commit /\ a.commit >= a.start)
+\* a non-voter is promoted only after it caught up in a completed round
+PromoteAfterRoundStep(ev) ==
+    \A a \in Acts(ev) : (a.kind = "action" /\ a.action = "promote") => a.rdone
+\* a removed node shuts itself down only after its removal is committed
+StopOnlyWhenRemovedStep(ev) ==
+    \A a \in Acts(ev) : a.kind = "stopped" => (a.commit >= a.cfgIndex /\ ~a.member)
+\* only voters (of their own latest configuration) campaign or become leader
+OnlyVotersCampaignStep(before, after, T) ==
+    \A n \in T :
+        (after[n].up /\ before[n].up /\ after[n].state = "C" /\ (before[n].state # "C" \/ after[n].term > before[n].term))
+            => IsVoter(after[n].cfgL, n)
+OnlyVotersLeadStep(before, after, T) ==
+    \A n \in T :
+        (after[n].up /\ before[n].up /\ after[n].state = "L" /\ before[n].state # "L") => IsVoter(before[n].cfgL, n)
+
+StepViolations(gh, before, after, ev, T) ==
+       (IF CommittedStableStep(gh, before, after, T) THEN {} ELSE {"C02_CommittedStable"})
+  \cup (IF LeaderAppendOnlyStep(before, after, T) THEN {} ELSE {"C04_LeaderAppendOnly"})
+  \cup (IF MonotoneStep(before, after, T) THEN {} ELSE {"C19_Monotone"})
+  \cup (IF TermNeverBackStep(gh, after, T) THEN {} ELSE {"C05_TermMonotone"})
   \cup (IF GrantDurableStep(after, ev) THEN {} ELSE {"C05_GrantDurable"})
   \cup (IF LeaderStickinessStep(before, after, ev) THEN {} ELSE {"C17_LeaderStickiness"})
+  \cup (IF ConfigOnlyWhenSafeStep(ev) THEN {} ELSE {"C08_ConfigOnlyWhenSafe"})
+  \cup (IF PromoteAfterRoundStep(ev) THEN {} ELSE {"C11_PromoteAfterRound"})
+  \cup (IF StopOnlyWhenRemovedStep(ev) THEN {} ELSE {"C11_StopOnlyWhenRemoved"})
+  \cup (IF OnlyVotersCampaignStep(before, after, T) THEN {} ELSE {"C11_OnlyVotersCampaign"})
+  \cup (IF OnlyVotersLeadStep(before, after, T) THEN {} ELSE {"C11_OnlyVotersLead"})
 
-GhostStep(gh, before, after, ev) ==
-    [elected   |-> gh.elected \cup {<<after[n].term, n>> : n \in {m \in DOMAIN after : after[m].up /\ after[m].state = "L"}},
-     grants    |-> gh.grants \cup SelfVotes(after)
+\* T = the nodes touched by this step (pass DOMAIN after when unknown)
+GhostStep(gh, before, after, ev, T) ==
+    [elected   |-> gh.elected \cup {<<after[n].term, n>> : n \in {m \in T : after[m].up /\ after[m].state = "L"}},
+     grants    |-> gh.grants \cup SelfVotes(after, T)
                      \cup (IF IsGrantEv(ev) THEN {<<ev.n, ev.term, ev.from>>} ELSE {}),
-     committed |-> ExtendCommitted(gh, after),
-     maxTerm   |-> [n \in DOMAIN gh.maxTerm |-> IF after[n].up THEN Max(gh.maxTerm[n], after[n].term) ELSE gh.maxTerm[n]],
+     committed |-> ExtendCommitted(gh, after, ev, T),
+     maxTerm   |-> [n \in DOMAIN gh.maxTerm |-> IF n \in T /\ after[n].up THEN Max(gh.maxTerm[n], after[n].term) ELSE gh.maxTerm[n]],
      acks      |-> gh.acks,
-     bad       |-> gh.bad \cup StepViolations(gh, before, after, ev)]
+     bad       |-> gh.bad \cup StepViolations(gh, before, after, ev, T)]
 
 --------------------------------------------------------------------------
 (* State predicates over (gh, ns)                                          *)
@@ -201,6 +234,27 @@ C19_LatestIsNewest(ns) ==
         IN IF k > 0 THEN ns[n].cfgL.index = k /\ ns[n].cfgL.nodes = EntryAt(ns[n], k).c
            ELSE ns[n].cfgL.index = ns[n].snapCfg.index /\ ns[n].cfgL.nodes = ns[n].snapCfg.nodes
 C19_Monotone(gh) == "C19_Monotone" \notin gh.bad
+
+\* C08: every configuration entry differs from its predecessor (previous configuration entry of the same log,
+\* or the snapshot's configuration) by at most one voter, and keeps a voter
+PrevCfgNodes(s, i) == LET before == {k \in CfgIdxs(s) : k < i}
+                      IN IF before = {} THEN s.snapCfg.nodes ELSE EntryAt(s, SetMax(before)).c
+VoterDelta(a, b) == (Voters(a) \ Voters(b)) \cup (Voters(b) \ Voters(a))
+C08_OneVoterDelta(ns) ==
+    \A n \in DOMAIN ns : \A i \in CfgIdxs(ns[n]) :
+        /\ Voters(EntryAt(ns[n], i).c) # {}
+        /\ (i > 1 /\ (CfgIdxs(ns[n]) \cap 1..(i - 1) # {} \/ ns[n].snapCfg.index > 0))
+              => Cardinality(VoterDelta(EntryAt(ns[n], i).c, PrevCfgNodes(ns[n], i))) <= 1
+C08_ConfigOnlyWhenSafe(gh) == "C08_ConfigOnlyWhenSafe" \notin gh.bad
+
+\* C11: non-voters and removed nodes hold no authority
+C11_OnlyVotersCampaign(gh) == "C11_OnlyVotersCampaign" \notin gh.bad
+C11_OnlyVotersLead(gh) == "C11_OnlyVotersLead" \notin gh.bad
+C11_PromoteAfterRound(gh) == "C11_PromoteAfterRound" \notin gh.bad
+C11_StopOnlyWhenRemoved(gh) == "C11_StopOnlyWhenRemoved" \notin gh.bad
+\* a leader that is no voter in its committed latest configuration has stopped leading
+C11_DemotedLeaderStepsDown(ns) ==
+    \A n \in DOMAIN ns : (ns[n].up /\ ns[n].state = "L" /\ ns[n].cfgC.index = ns[n].cfgL.index) => IsVoter(ns[n].cfgL, n)
 
 \* C17(a): leader stickiness
 C17_LeaderStickiness(gh) == "C17_LeaderStickiness" \notin gh.bad
